@@ -269,6 +269,26 @@ class Ctx(object):
     def el(self, n, entries):
         return pput(self.space(n), entries)
 
+    def vec(self, entries):
+        """The element object for a vector literal: equal literals of one case are ONE object (the user
+        passing the same `w` twice), and its original contents are remembered for the operand check."""
+        cache = self.__dict__.setdefault('vecs', {})
+        key = (len(entries), tuple(complex(u) for u in entries))
+        if key not in cache:
+            e = self.el(len(entries), entries)
+            cache[key] = (e, pflat(e).tobytes())
+        return cache[key][0]
+
+    def vlit(self, n, lo=-3, hi=3):
+        """a vector literal for the generator: sometimes one that already occurs in this tree"""
+        lits = self.__dict__.setdefault('vlits', [])
+        same = [v for v in lits if len(v) == n]
+        if same and self.rng.random() < 0.3:
+            return list(self.rng.choice(same))
+        v = self.ivec(n, lo, hi)
+        lits.append(v)
+        return v
+
     def num(self, small=False):
         r = self.rng
         pool = [0, 1, -1, 2, -2, 0.5, -0.5, 3] if not small else [1, -1, 2, -2, 0.5, 3]
@@ -357,7 +377,7 @@ class CF(object):
     def dyadic(self):
         # dyadic with at most 26 significant bits: then every product of two tracked values (and every
         # sum of a few) is exact in float64, whatever order the implementation evaluates in
-        return all(d & (d - 1) == 0 and abs(n).bit_length() <= 26
+        return all(d & (d - 1) == 0 and abs(n).bit_length() <= 26 and d.bit_length() <= 500   # no underflow
                    for n, d in ((self.re.numerator, self.re.denominator), (self.im.numerator, self.im.denominator)))
 
     def absr(self):
@@ -674,16 +694,16 @@ def gen(ctx, depth, dom, ran, p_bad=0.0, pw=2):
         return ('pow', gen(ctx, d1, dom, ran, p_bad, pw - 1), n)
     if k in ('addv', 'vadd', 'subv', 'vsub'):
         n = other_dim(ran) if bad else ran
-        return (k, gen(ctx, d1, dom, ran, p_bad, pw), ctx.ivec(n))
+        return (k, gen(ctx, d1, dom, ran, p_bad, pw), ctx.vlit(n))
     if k == 'mulv':
         n = other_dim(dom) if bad else dom
-        return (r.choice(['mulv', 'mulv', 'matmulv']), gen(ctx, d1, dom, ran, p_bad, pw), ctx.ivec(n))
+        return (r.choice(['mulv', 'mulv', 'matmulv']), gen(ctx, d1, dom, ran, p_bad, pw), ctx.vlit(n))
     if k == 'vmul':
         if ran == 'F':      # v * A never has a field range: use c * A instead
             return ('cmul', gen(ctx, d1, dom, ran, p_bad, pw), ctx.scalar())
         inner = 'F' if r.random() < 0.4 else ran
         n = other_dim(ran) if (bad and inner != 'F') else ran
-        return (r.choice(['vmul', 'vmul', 'vmatmul']), gen(ctx, d1, dom, inner, p_bad, pw), ctx.ivec(n))
+        return (r.choice(['vmul', 'vmul', 'vmatmul']), gen(ctx, d1, dom, inner, p_bad, pw), ctx.vlit(n))
     if k in ('addc', 'cadd', 'subc', 'csub'):
         return (k, gen(ctx, d1, dom, ran, p_bad, pw), ctx.scalar())
     if k in ('mulc', 'cmul'):
@@ -784,7 +804,7 @@ def _py_build(ctx, t):
     if k == 'pow':
         return a ** t[2]
     if k in ('addv', 'vadd', 'subv', 'vsub', 'mulv', 'matmulv', 'vmul', 'vmatmul'):
-        v = ctx.el(len(t[2]), t[2])
+        v = ctx.vec(t[2])
         return {'addv': lambda: a + v, 'vadd': lambda: v + a, 'subv': lambda: a - v, 'vsub': lambda: v - a,
                 'mulv': lambda: a * v, 'matmulv': lambda: a @ v, 'vmul': lambda: v * a,
                 'vmatmul': lambda: v @ a}[k]()
@@ -987,6 +1007,36 @@ def flat(ctx, y):
     return [complex(u) if ctx.cplx else float(u) for u in a.tolist()]
 
 
+def leaf_fingerprint(lf):
+    """what a leaf computes at a fixed point (bitwise): changes if building/evaluating an expression
+    modified the leaf's data"""
+    import numpy as np
+    try:
+        x = pput(lf.op.domain, np.arange(1, pdim(lf.op.domain) + 1))
+        y = lf.op(x)
+        return pflat(y).tobytes() if hasattr(y, 'space') else repr(complex(y))
+    except Exception as e:   # noqa
+        return 'raises ' + type(e).__name__
+
+
+def snapshot_operands(ctx):
+    for lf in ctx.leaves:
+        if not hasattr(lf, 'fp0'):
+            lf.fp0 = leaf_fingerprint(lf)
+
+
+def operands_modified(ctx):
+    """None, or a description of the first operand (vector literal object / leaf operator) whose data is no
+    longer what the user passed in: building and evaluating an expression must never modify its operands."""
+    for (n, vals), (e, b0) in ctx.__dict__.get('vecs', {}).items():
+        if pflat(e).tobytes() != b0:
+            return 'vector operand %r became %r' % ([complex(u) for u in vals], pflat(e).tolist())
+    for lf in ctx.leaves:
+        if hasattr(lf, 'fp0') and leaf_fingerprint(lf) != lf.fp0:
+            return 'leaf operator %s (%s) computes something else now' % (lf.index, lf.kind)
+    return None
+
+
 def kon_term(ctx):
     """memory contract (result fresh?, in-place alias-safe?) of each leaf, indexed by l_id"""
     return C.lst(['(%s, %s)' % (C.b(l.fresh), C.b(l.alias_safe)) for l in ctx.leaves])
@@ -999,6 +1049,7 @@ def run_case(ctx, t, npts=2):
     r = ctx.rng
     leafids = dict((id(l.op), l_i) for l_i, l in enumerate(ctx.leaves))
     # leaf ids must be the l_id of the coq term: leaves are numbered in creation order
+    snapshot_operands(ctx)
     try:
         o = py_build(ctx, t)
         err = None
@@ -1008,6 +1059,12 @@ def run_case(ctx, t, npts=2):
         o, err = None, 'BTypeErr'
     except Exception as e:       # noqa
         o, err = None, 'BOther'
+    mod = operands_modified(ctx)
+    if mod is not None:
+        term = ('{| c_vt := vt_now; c_kon := %s; c_expr := %s; c_build := BOther; c_points := [] |}'
+                % (kon_term(ctx), to_coq(ctx, t)))
+        return term, {'expr': src_skeleton(t), 'outcome': 'building the expression modified an operand: ' + mod}, \
+            ('operand-modified', src_skeleton(t))
     pre = 'check_cplx' if ctx.cplx else 'check_real'
     if err is not None:
         term = '{| c_vt := vt_now; c_kon := %s; c_expr := %s; c_build := %s; c_points := [] |}' % (kon_term(ctx), to_coq(ctx, t), err)
@@ -1081,6 +1138,12 @@ def run_case(ctx, t, npts=2):
                 xx = '(Some [])'
         pts.append('{| p_x := %s; p_out := %s; p_ip := %s; p_alias := %s; p_xx := %s |}'
                    % (ctx.qs(x), ctx.qs(out), ip, C.b(shares), xx))
+    mod = operands_modified(ctx)
+    if mod is not None:
+        term = ('{| c_vt := vt_now; c_kon := %s; c_expr := %s; c_build := BOther; c_points := [] |}'
+                % (kon_term(ctx), to_coq(ctx, t)))
+        return term, {'expr': src_skeleton(t), 'outcome': 'evaluating the expression modified an operand: ' + mod}, \
+            ('operand-modified', src_skeleton(t))
     term = ('{| c_vt := vt_now; c_kon := %s; c_expr := %s; c_build := BOk %s %s %s %s %s; c_points := %s |}'
             % (kon_term(ctx), to_coq(ctx, t), sk, dterm, rterm, C.b(bool(o.is_linear)), C.b(isinstance(o, Functional)),
                C.lst(pts)))
@@ -1141,6 +1204,12 @@ def correspondence(rng, tier):
         c2 = Ctx(rng, False)
         term, desc, key = run_case(c2, thaw(c2, freeze(t)), npts=1)
         cs.add(term, desc, key)
+    for kind in ('rn', 'discr', 'prod'):
+        ctx0 = Ctx(rng, False, kind)
+        for t in _operand_reuse_trees(ctx0):
+            c2 = Ctx(rng, False, kind)
+            term, desc, key = run_case(c2, thaw(c2, freeze(t)), npts=2)
+            cs.add(term, desc, key)
     # memory-contract patterns on every space kind (leaves that are not alias-safe / alias their input)
     for cplx, cset in ((False, cs),):
         for kind in ('rn', 'discr', 'wrn', 'prod'):
@@ -1215,6 +1284,7 @@ def oracle_node(ctx, t, xs):
         typed = True
     except RefErr:
         typed = False
+    snapshot_operands(ctx)
     try:
         o = py_build(ctx, t)
         err = None
@@ -1224,6 +1294,9 @@ def oracle_node(ctx, t, xs):
         err = 'TypeError'
     except Exception as e:   # noqa
         err = type(e).__name__
+    mod = operands_modified(ctx)
+    if mod is not None:
+        return ('build-modifies-operand', mod)
     if not typed:
         if err in ('TypeError', 'ZeroDivisionError'):
             return None
@@ -1237,9 +1310,14 @@ def oracle_node(ctx, t, xs):
     if lin and not o.is_linear:
         return ('flag-not-linear', 'implied linear, is_linear=False')
     try:
-        return _oracle_values(ctx, t, o, xs, d, rr)
+        res = _oracle_values(ctx, t, o, xs, d, rr)
     except Exception as e:      # noqa
         return ('evaluation-raises', '%s: %s' % (type(e).__name__, str(e)[:160]))
+    if res is None:
+        mod = operands_modified(ctx)
+        if mod is not None:
+            return ('evaluation-modifies-operand', mod)
+    return res
 
 
 def _oracle_values(ctx, t, o, xs, d, rr):
@@ -1385,6 +1463,28 @@ def _fixed_trees(ctx):
                 ('mul', f(), ('mulc', A('nonlin'), a)), ('mulc', ('mul', f(), A()), a),
                 ('add', f(), ('const', 2, a)), ('add', ('const', 2, a), ('zerof', 2)),
                 ('mulc', ('const', 2, a), b), ('cmul', ('zerof', 2), b), ('mulc', ('zerof', 2), 0)]
+    return out
+
+
+def _operand_reuse_trees(ctx):
+    """One vector OBJECT used several times / combined with a second one through every vector overload:
+    wrong as soon as a constructor or a merge shortcut writes into the caller's element."""
+    out = []
+    for want, ran in (('lin', 2), ('nonlin', 2), ('func', 'F'), ('nquad', 'F'), ('retx', 2)):
+        A = ('leaf', make_leaf(ctx, 2, ran, want))
+        v, w = ctx.ivec(2), ctx.ivec(2)
+        if ran != 'F':
+            out += [('addv', ('addv', A, v), w), ('addv', ('addv', ('addv', A, v), w), w), ('vadd', ('addv', A, v), w),
+                    ('addv', ('vadd', ('addv', A, v), w), w), ('subv', ('addv', A, v), w), ('vsub', ('subv', A, v), w),
+                    ('addv', ('subv', ('addv', A, w), v), w), ('vmul', ('vmul', A, v), w),
+                    ('vmul', ('vmul', ('vmul', A, v), w), w), ('addv', ('vmul', ('addv', A, w), v), w),
+                    ('vmul', ('addv', ('vmul', A, w), w), w), ('add', ('addv', A, w), ('vmul', A, w)),
+                    ('mul', ('vmul', A, w), ('addv', A, w)), ('ptw', ('addv', A, w), ('addv', A, w))]
+        else:
+            out += [('vmul', A, w), ('vmul', ('mulv', A, w), w), ('addv', ('vmul', A, w), w)]
+        out += [('mulv', ('mulv', A, v), w), ('mulv', ('mulv', ('mulv', A, v), w), w), ('mulv', ('mulv', A, w), w),
+                ('mulc', ('mulv', ('mulv', A, v), w), 2.0), ('mulv', ('mulc', ('mulv', A, w), 2.0), w),
+                ('add', ('mulv', A, w), ('mulv', ('mulv', A, v), w))]
     return out
 
 
@@ -1859,6 +1959,55 @@ def homog_check(op, a):
     return ok, observed.tolist(), expected.tolist()
 
 
+def operand_probes(rng, reps=1):
+    """building / evaluating an expression never modifies its operands (one vector object used repeatedly)"""
+    out = []
+    for rep in range(reps):
+        for cplx in (False, True):
+            for kind in ('rn', 'wrn', 'discr', 'prod'):
+                ctx0 = Ctx(rng, cplx, kind)
+                for t in _operand_reuse_trees(ctx0):
+                    ctx = Ctx(rng, cplx, kind)          # fresh objects per tree: one failure cannot mask the next
+                    t2 = thaw(ctx, freeze(t))
+                    xs = [ctx.ivec(2, -2, 2) for _ in range(2)]
+                    out.append(_tree_probe(ctx, t2, xs, 'operands are not modified (same vector object reused)'))
+    return out
+
+
+def search(rng, broken):
+    """Called by the driver when a proof / the correspondence broke and no probe of the quick tier has a
+    failing input: run the focused families first (operand immutability, memory contracts, reflected
+    dispatch, mixed fields), then deeper random trees."""
+    fams = [lambda: operand_probes(rng, reps=3)]
+
+    def fam_trees(maker, kinds=('rn', 'discr', 'wrn', 'prod')):
+        def run():
+            res = []
+            for cplx in (False, True):
+                for kind in kinds:
+                    ctx = Ctx(rng, cplx, kind)
+                    for t in maker(ctx):
+                        xs = [ctx.ivec(2, -2, 2) for _ in range(2)]
+                        res.append(_tree_probe(ctx, t, xs, 'search: focused pattern'))
+            return res
+        return run
+    fams += [fam_trees(_memory_trees), fam_trees(_reflected_trees, ('rn',)), fam_trees(_fixed_trees, ('rn',)),
+             lambda: mixed_probes(rng, 1500)]
+    known = C.load_findings(PID)
+    for fam in fams:
+        for p in fam():
+            if not p.ok and p.key not in known:
+                return p
+    for i in range(1500):
+        ctx = Ctx(rng, (i % 3 == 2), rng.choice(['rn', 'rn', 'wrn', 'discr', 'prod']))
+        d = rng.choice(DIMS)
+        t = gen(ctx, rng.randint(2, 6), d, rng.choice(DIMS + ['F', 'F']), p_bad=0.04)
+        p = _tree_probe(ctx, t, [ctx.ivec(d, -2, 2) for _ in range(2)], 'search: random tree')
+        if not p.ok and p.key not in known:
+            return p
+    return None
+
+
 def probes(rng, tier):
     import odl
     out = []
@@ -1879,6 +2028,7 @@ def probes(rng, tier):
             for t in _fixed_trees(ctx):
                 xs = [ctx.ivec(2, -2, 2) for _ in range(2)]
                 out.append(_tree_probe(ctx, t, xs, 'fixed interaction pattern vs reference interpreter'))
+    out += operand_probes(rng)
     for cplx in (False, True):
         ctx = Ctx(rng, cplx)
         for t in _reflected_trees(ctx):
